@@ -73,10 +73,21 @@ func namedKey(t types.Type) string {
 	t = types.Unalias(t)
 	if n, ok := t.(*types.Named); ok {
 		if _, isStruct := n.Underlying().(*types.Struct); isStruct {
-			if n.Obj().Pkg() != nil {
-				return shortPkg(n.Obj().Pkg().Path()) + "." + n.Obj().Name()
+			targs := ""
+			if ta := n.TypeArgs(); ta != nil && ta.Len() > 0 {
+				targs = "["
+				for i := 0; i < ta.Len(); i++ {
+					if i > 0 {
+						targs += ","
+					}
+					targs += namedKey(ta.At(i))
+				}
+				targs += "]"
 			}
-			return n.Obj().Name()
+			if n.Obj().Pkg() != nil {
+				return shortPkg(n.Obj().Pkg().Path()) + "." + n.Obj().Name() + targs
+			}
+			return n.Obj().Name() + targs
 		}
 	}
 	if s, ok := t.Underlying().(*types.Struct); ok {
